@@ -100,6 +100,22 @@ def step (st : St) (pre post : List String) : St × Verdict :=
         else (st, .propfail "transient-not-empty-after-commit" s!"run {id} store {store} key {k}: {post}")
       | _ => (st, .bad "not transient")
     | none => (st, .bad "tgetc")
+  -- a historical view (LoadLazyVersion / CacheMultiStoreWithVersion) touched a transient store.  As found:
+  -- the lazily loaded multistore has no transient substore (access panics); the cache view wraps the live one
+  -- and is never written back.
+  | ["hview", _, kind, _, _] =>
+    if kind = "lazy" then (st, if post = ["panic"] then .ok else .diff s!"LoadLazyVersion view resolves a transient store: {post}")
+    else (st, if post = ["ok"] then .ok else .diff s!"CacheMultiStoreWithVersion view: {post}")
+  -- what the next block starts with: every transient store must be empty, whatever went through historical views
+  | ["tstart", id, store] =>
+    match id.toNat? >>= findRun st with
+    | some r =>
+      match r.ms.stores.lookup (nm store) with
+      | some (.transient m) =>
+        if post = ["0", "~", "~"] then (st, if m.isEmpty then .ok else .diff "model transient store not empty at block start")
+        else (st, .propfail "historical-view-writes-live-transient" s!"transient-not-empty-at-block-start: run {id} store {store}: {post}")
+      | _ => (st, .bad "not transient")
+    | none => (st, .bad "tstart")
   | ["commit", id] =>
     match id.toNat? >>= findRun st, post with
     | some r, [ver, hash, lver, lhash, infos, tsz] =>
